@@ -1,6 +1,7 @@
 import SieveModel.Lemmas.ClientRead
 import SieveModel.Props.C09
 import SieveModel.Lemmas.Listing
+import SieveModel.Lemmas.Session
 /-! # C15 — session-level consequences of T-READ (theorems follow) -/
 namespace C15
 open Client Reader
@@ -96,5 +97,10 @@ theorem listing_view_equals_server_state (c : Client) (s : Store) (rest : Bytes)
 /-- non-vacuity: a store with three scripts, the second one active -/
 example : (⟨[(sb "a", sb "keep;"), (sb "OK", sb "stop;"), (sb "{5}", [])], some (sb "OK")⟩ : Store).entries.map (·.active) = [false, true, false] := by
   decide
+
+/-- **no history of operations gets out of step because of how the bytes arrive**: for every session (any list of
+    public operations) the results, in order, are the same for any two deliveries of the same server bytes -/
+theorem sessions_stay_in_step (ops : List Op) (a b : Client) (h : SameC a b) : (runOps a ops).1 = (runOps b ops).1 :=
+  (runOps_congr ops a b h).1
 
 end C15
